@@ -2,6 +2,7 @@ package sym
 
 import (
 	"fmt"
+	"golang.org/x/tools/go/ssa"
 	"sort"
 	"strings"
 	"sync"
@@ -70,20 +71,20 @@ type mutexState struct {
 }
 
 type wgState struct {
-	n  int
-	vc vclock
+	n       int
+	vc      vclock
 	waiting int
 }
 
 type shadow struct {
-	wTid    int
-	wClk    int
-	wAtomic bool
-	wSite   string
-	hasW    bool
+	wTid     int
+	wClk     int
+	wAtomic  bool
+	wSite    string
+	hasW     bool
 	reported bool
-	reads   map[int]readRec
-	svc     vclock // release clock for atomic accesses
+	reads    map[int]readRec
+	svc      vclock // release clock for atomic accesses
 }
 
 type readRec struct {
@@ -614,4 +615,44 @@ func (e *Engine) settle() {
 		}
 		return true
 	})
+}
+
+// atomicPointer models the methods of sync/atomic.Pointer[T].
+func (e *Engine) atomicPointer(fn *ssa.Function, key string, args []Value) (Value, bool) {
+	recv, ok := args[0].(*Value)
+	if !ok || recv == nil {
+		panic(unsupported(fmt.Sprintf("atomic.Pointer receiver %T in %s", args[0], key)))
+	}
+	cur := func() Value {
+		if v, ok := e.side[recv]; ok {
+			return v.(Value)
+		}
+		return (*Value)(nil)
+	}
+	if e.th != nil && e.job.Threads {
+		e.yield("atomic.Pointer")
+	}
+	name := key[strings.LastIndex(key, ".")+1:] // the instantiation's own Name() carries the type arguments
+	switch name {
+	case "Load":
+		e.atomicAccess(recv, false)
+		return cur(), true
+	case "Store":
+		e.atomicAccess(recv, true)
+		e.side[recv] = args[1]
+		return nil, true
+	case "Swap":
+		e.atomicAccess(recv, true)
+		old := cur()
+		e.side[recv] = args[1]
+		return old, true
+	case "CompareAndSwap":
+		e.atomicAccess(recv, true)
+		if e.branch(e.valueEq(cur(), args[1])) {
+			e.side[recv] = args[2]
+			return e.st.True, true
+		}
+		return e.st.False, true
+	}
+	return nil, false
 }
